@@ -19,15 +19,21 @@ Record scase := { k_chain : @chain FX; k_load : @loadexpr FX; k_pos0 : fqty; k_s
 Definition fu_eqb (q : fqty) (x : fu) : bool := fbits_eq (qv q) (fst x) && String.eqb (qu q) (snd x).
 Fixpoint fus_eqb (l : list fqty) (x : list fu) : bool :=
   match l, x with [], [] => true | q :: l', y :: x' => fu_eqb q y && fus_eqb l' x' | _, _ => false end.
-(** code of the first differing field of one instant: 0 = none *)
+Definition last_fu_eqb (l : list fqty) (x : list fu) : bool :=
+  match rev l, rev x with q :: _, y :: _ => fu_eqb q y | [], [] => true | _, _ => false end.
+(** code of the first differing field of one instant: 0 = none; 2/3/4 = position/speed/acceleration of an upstream element
+    while the last element's agrees; 22/23/24 = the last element's differs *)
 Definition row_code (t : fqty) (s : @snap FX) (r : row) : N :=
   if negb (fu_eqb t (r_time r)) then 1 else
+  if negb (last_fu_eqb (s_pos s) (r_pos r)) then 22 else
   if negb (fus_eqb (s_pos s) (r_pos r)) then 2 else
+  if negb (last_fu_eqb (s_spd s) (r_spd r)) then 23 else
   if negb (fus_eqb (s_spd s) (r_spd r)) then 3 else
   if negb (fus_eqb (s_ltq s) (r_ltq r)) then 7 else
   if negb (fbits_eq (s_pwm s) (r_pwm r)) then 8 else
   if negb (fus_eqb (s_dtq s) (r_dtq r)) then 6 else
   if negb (fus_eqb (s_tq s) (r_tq r)) then 5 else
+  if negb (last_fu_eqb (s_acc s) (r_acc r)) then 24 else
   if negb (fus_eqb (s_acc s) (r_acc r)) then 4 else
   if negb (match s_cur s, r_cur r with None, None => true | Some q, Some x => fu_eqb q x | _, _ => false end) then 9 else 0.
 Fixpoint rows_code (h : list (fqty * @snap FX)) (rs : list row) (i : N) : N * N :=     (* (code, instant index) *)
@@ -53,4 +59,20 @@ Fixpoint failing_from (i : N) (l : list scase) : list (N * (N * N)) :=
               if N.eqb (fst c) 0 then failing_from (N.succ i) l' else (i, c) :: failing_from (N.succ i) l'
   end.
 Definition failing (l : list scase) : list (N * (N * N)) := failing_from 0 l.
+
+(** the time grid alone (long runs): step count and sampled instants *)
+Record gcase := { g_dt : fqty; g_T : fqty; g_last : option fqty; g_n : nat; g_samples : list (nat * float) }.
+Definition gcase_code (g : gcase) : N :=
+  match run_grid (g_dt g) (g_T g) (g_last g) with
+  | Err _ => 14
+  | Ok (t0, ts) =>
+      if negb (Nat.eqb (length ts) (g_n g)) then 11
+      else if forallb (fun p => match nth_error ts (fst p) with Some q => fbits_eq (qv q) (snd p) | None => false end) (g_samples g) then 0 else 1
+  end.
+Fixpoint gfailing_from (i : N) (l : list gcase) : list (N * (N * N)) :=
+  match l with
+  | [] => []
+  | g :: l' => let c := gcase_code g in if N.eqb c 0 then gfailing_from (N.succ i) l' else (i, (c, 0%N)) :: gfailing_from (N.succ i) l'
+  end.
+Definition gfailing (l : list gcase) : list (N * (N * N)) := gfailing_from 0 l.
 End Corr.
